@@ -325,6 +325,23 @@ def careful_apply(ar, op, events):
     return ar.apply(op), None
 
 
+def new_arena(kind, flavor, n, fill):
+    """Arena of the requested flavour; fill(items) -> bytes for that many items.  If the flavour's own
+    set-up (slicing a larger array, from_buffer) fails, fall back to a plain ffi.new array: such a
+    failure is not C16's business."""
+    for fl in (flavor, "new_var" if flavor != "own" else "own"):
+        pad = PAD if fl in ("slice", "frombuf") else 0
+        items = 1 if fl == "own" else n
+        try:
+            return Arena(kind, fl, n, fill(items, pad))
+        except core.MachineryError:
+            raise
+        except Exception:
+            if fl != flavor:
+                raise
+    raise core.MachineryError("no arena")
+
+
 class TlcJobs:
     """All TLC runs of a check are started at once on a small thread pool (each is its own JVM);
     results are collected, and accounted with ctx.add_tlc, by the main thread when needed."""
